@@ -17,7 +17,7 @@ LEVEL = 'other'
 MANIFEST = {
     'engine': 'pysym',
     'level': 'other',
-    'technique': 'dispatch lemmas: each renderer decision is evaluated over its complete finite domain (join types, sort modifiers, set operators, operator tokens of the grammars) on the real code and compared, at the level of SQLAlchemy element trees, with a reference table; sqlite3 differential execution as bounded stand-in',
+    'technique': 'dispatch lemmas: each renderer decision is evaluated over its complete finite domain (join types, sort modifiers, set operators, operator tokens of the grammars x operand kinds, chains of three set-operation operands under bag semantics) on the real code and compared, at the level of SQLAlchemy element trees, with a reference table; sqlite3 differential execution as bounded stand-in',
     'text': 'Only the renderer\'s own decisions are decided (exhaustively over finite domains read from the grammars); the meaning of the emitted '
             'text is assumed from SQLAlchemy\'s documented API. LEFT OUTER / RIGHT / FULL OUTER joins rendered as inner joins and dropped NULLS '
             'FIRST/LAST inside window ORDER BY are genuine defects (known findings). Data-dependent equivalence is only sampled on sqlite3.',
